@@ -3,7 +3,8 @@
 #   usage: run_all.sh <scratch-worktree> <dir-with-diffs> <out-file>
 WT="$1"; DIR="$2"; OUTF="$3"
 HERE="$(cd "$(dirname "${BASH_SOURCE[0]}")" && pwd)"
-FROZEN="$WT/.verif-sim-src"
+FROZEN="/tmp/verif-scratch/$(basename "$WT")/verif-sim-src"
+mkdir -p "$FROZEN"
 rsync -a --delete --exclude target "$HERE/../../sim/" "$FROZEN/"
 : > "$OUTF"
 for m in "$DIR"/*.diff; do
